@@ -90,7 +90,7 @@ impl Model {
 }
 
 #[derive(Debug, Clone, Copy, PartialEq, Eq)]
-enum StepCtx {
+pub enum StepCtx {
     Query,
     SessionWithRefresh,
     Session,
@@ -119,6 +119,9 @@ pub struct Runner<B: Backend> {
     /// exclude known finding KF1 by construction (see DESIGN.md)
     pub defuse_kf1: bool,
     pub kf1_defused_steps: usize,
+    /// when false, `process_log` only keeps the books (concurrent phases in
+    /// which the model is not constant)
+    pub judge_log: bool,
 }
 
 fn has_expr(p: &Program, f: &dyn Fn(&Expr) -> bool) -> bool {
@@ -205,6 +208,7 @@ impl<B: Backend> Runner<B> {
             pending_release: None,
             defuse_kf1: true,
             kf1_defused_steps: 0,
+            judge_log: true,
         }
     }
 
@@ -307,7 +311,7 @@ impl<B: Backend> Runner<B> {
             .collect()
     }
 
-    async fn defuse(&mut self, roots: &[u32]) {
+    pub async fn defuse(&mut self, roots: &[u32]) {
         if !self.defuse_kf1 {
             return;
         }
@@ -351,7 +355,7 @@ impl<B: Backend> Runner<B> {
         (all, o.reads)
     }
 
-    async fn tracked(&mut self) -> &TrackedEngine<B::C> {
+    pub async fn tracked(&mut self) -> &TrackedEngine<B::C> {
         if self.tracked.is_none() {
             let e = self.engine.as_ref().unwrap().clone();
             self.tracked = Some(e.tracked().await);
@@ -693,7 +697,7 @@ impl<B: Backend> Runner<B> {
     }
 
     /// Judge every executor invocation logged since the last call.
-    fn process_log(&mut self, ctx: StepCtx) {
+    pub fn process_log(&mut self, ctx: StepCtx) {
         let log = self.sh.log.lock();
         let new = &log[self.log_pos..];
         if std::env::var_os("VERIF_TRACE").is_some() {
@@ -721,7 +725,7 @@ impl<B: Backend> Runner<B> {
                     StepCtx::SessionWithRefresh => !first,
                     StepCtx::Session | StepCtx::Other => false,
                 };
-                if !legal && self.check_c03 {
+                if !legal && self.check_c03 && self.judge_log {
                     self.out.violate(
                         "C03",
                         format!(
@@ -866,8 +870,10 @@ impl<B: Backend> Runner<B> {
             self.model.last_completed.insert(node, reads);
             self.model.last_exec_epoch.insert(node, e);
         }
-        for (prop, what) in viol {
-            self.out.violate(prop, what);
+        if self.judge_log {
+            for (prop, what) in viol {
+                self.out.violate(prop, what);
+            }
         }
     }
 
